@@ -5,6 +5,7 @@
      -> per call "urls=<i,..> res=<R|E|P><k>|X retried=<n> url=<i> nf=<n> ns=<n> iv=<ns,..>" joined by " | "
         (iv = the intervals OnRetry returned, oldest first),
         then " lit=<bool>" (the literal recursion with fuel budget+1 gave the same observations)
+   RI <index> <rest as R>      the same, the shared failover index starts at <index> instead of 0
    F <outs> <order i,j,..|->   forking: server i carries payload i
      -> "res=<..|none> invoked=<sorted> lts=<bool>"
    B <outs> <order>            broadcast
@@ -37,7 +38,7 @@ let string_of_obs (o : Cluster.obs) =
     (int_of_nat s.Cluster.nfail) (int_of_nat s.Cluster.nsucc)
     (commas string_of_z (Stdlib.List.rev s.Cluster.ivs))
 
-let run_retry mode n retry idem carry mn mx rest =
+let run_retry ?(ix = "0") mode n retry idem carry mn mx rest =
   let r = z_of_string retry and i = (idem = "1") in
   let mn = z_of_string mn and mx = z_of_string mx in
   let c = match mode with
@@ -55,8 +56,9 @@ let run_retry mode n retry idem carry mn mx rest =
     | _ -> failwith "c16: bad call" in
   let cs = calls rest in
   let nz = z_of_string n in
-  let obs = Cluster.run_calls c nz (carry = "1") (z_of_int 0) None cs in
-  let lit = Cluster.run_calls_lit c nz (carry = "1") (z_of_int 0) None cs in
+  let ix = z_of_string ix in
+  let obs = Cluster.run_calls c nz (carry = "1") ix None cs in
+  let lit = Cluster.run_calls_lit c nz (carry = "1") ix None cs in
   let same = (Stdlib.List.map (fun o -> Some (string_of_obs o)) obs)
              = (Stdlib.List.map (function None -> None | Some o -> Some (string_of_obs o)) lit) in
   Printf.sprintf "%s lit=%b" (String.concat " | " (Stdlib.List.map string_of_obs obs)) same
@@ -104,6 +106,8 @@ let run_pass outs =
 let run line =
   match split_ws line with
   | "R" :: mode :: n :: retry :: idem :: carry :: mn :: mx :: rest -> run_retry mode n retry idem carry mn mx rest
+  | "RI" :: ix :: mode :: n :: retry :: idem :: carry :: mn :: mx :: rest ->
+    run_retry ~ix mode n retry idem carry mn mx rest
   | [ "F0"; outs ] -> run_pass outs
   | [ "B0"; outs ] -> run_pass outs
   | [ "F"; outs; order ] -> run_fork outs order
